@@ -8,7 +8,7 @@ include!("/verif/witness/c11_histories_common.rs");
 #[test]
 fn verif_witness() {
     let mut cases = 0usize;
-    for h in histories(5) {
+    for h in histories(if vw_thorough() { 7 } else { 5 }) {
         if !is_clean(&h) { continue; }
         let (before, after) = run_history(&h);
         cases += 1;
